@@ -104,12 +104,13 @@ def main(argv=None):
                                  __import__('time').time() - ctx.t0))
   for sub, sp in ctx.subspaces.items():
     print('  %-34s %s' % (sub, ' '.join('%s=%s' % kv for kv in sp.items())))
+  if err:
+    print('HARNESS-ERROR: %s' % err)
   if ctx.violations:
     if len(ctx.violations) > core.MAX_REPORTED:
       print('  (%d further violating cases not written out)' % (len(ctx.violations) - core.MAX_REPORTED))
     return 1
   if err:
-    print('HARNESS-ERROR: %s' % err)
     return 2
   return 0
 
